@@ -89,6 +89,9 @@ func (c *c14Case) build() (tpl string, want map[string]string, wantClass []strin
 	case "str":
 		bound = append(bound, `:class="cv"`)
 		wantClass = append(wantClass, "b1", "b2")
+	case "objquote": // string literals that contain the other kind of quote, with further keys behind them
+		bound = append(bound, `:class="{mine: w != &quot;O'Brien&quot;, said: w != '&quot;hi&quot;, she said', bold: t, off: f, last: one}"`)
+		wantClass = append(wantClass, "mine", "said", "bold", "last")
 	case "objcall": // values that are calls and index expressions with commas and brackets of their own
 		bound = append(bound, `:class="{many: len(lst) > 1, first: lst[0] == 1, none: min(one, zero) > 0, pair: [1, 2][1] == 2}"`)
 		wantClass = append(wantClass, "many", "first", "pair")
@@ -801,7 +804,7 @@ func init() {
 			for _, ts := range []string{"none", "static", "interp"} {
 				for _, tb := range tbs {
 					for _, cs := range []bool{false, true} {
-						for _, cb := range []string{"none", "str", "obj1", "obj2", "obj3", "obj4", "obj5", "num", "objcall"} {
+						for _, cb := range []string{"none", "str", "obj1", "obj2", "obj3", "obj4", "obj5", "num", "objcall", "objquote"} {
 							for _, ss := range []bool{false, true} {
 								for _, sb := range []string{"none", "obj1", "obj2", "str"} {
 									for _, sh := range []string{"none", "t", "sx", "f", "zero"} {
